@@ -10,6 +10,9 @@ import (
 	"github.com/ipfs/go-cid"
 	"github.com/ipld/go-ipld-prime"
 	cidlink "github.com/ipld/go-ipld-prime/linking/cid"
+
+	"github.com/ipfs/go-graphsync"
+	"github.com/ipfs/go-graphsync/dedupkey"
 )
 
 // c20: several concurrent requests between one requestor and one responder
@@ -21,6 +24,7 @@ type c20 struct {
 	reqs  []*Req
 	sels  []ipld.Node
 	descs []string
+	inKey map[graphsync.RequestID]bool // requests in the named deduplication scope
 	// one sibling may be disturbed (its caller cancels it, or pauses it for good) while the
 	// others run: it is left out of the comparison, the others must not notice
 	victim   int // -1: none
@@ -52,6 +56,8 @@ func (s *c20) Build(w *World) {
 		}
 	}
 	n := 2 + t.Draw(3)
+	// some runs put (most of) the requests into one named deduplication scope
+	keyed := t.Chance(300)
 	for i := 0; i < n; i++ {
 		root := s.dag.Root.Cid
 		if t.Chance(500) {
@@ -63,7 +69,17 @@ func (s *c20) Build(w *World) {
 		}
 		s.sels = append(s.sels, sel)
 		s.descs = append(s.descs, fmt.Sprintf("%s@%s", desc, shortCid(root)))
-		s.reqs = append(s.reqs, s.a.NewReq(fmt.Sprintf("r%d", i), s.b, cidlink.Link{Cid: root}, sel))
+		var exts []graphsync.ExtensionData
+		if keyed && t.Chance(750) {
+			k, _ := dedupkey.EncodeDedupKey("shared")
+			exts = append(exts, graphsync.ExtensionData{Name: graphsync.ExtensionDeDupByKey, Data: k})
+			s.descs[len(s.descs)-1] += "+key"
+		}
+		s.reqs = append(s.reqs, s.a.NewReq(fmt.Sprintf("r%d", i), s.b, cidlink.Link{Cid: root}, sel, exts...))
+		if s.inKey == nil {
+			s.inKey = map[graphsync.RequestID]bool{}
+		}
+		s.inKey[s.reqs[len(s.reqs)-1].ID] = len(exts) > 0
 	}
 	s.victim = -1
 	if t.Chance(400) {
@@ -259,12 +275,39 @@ func (s *c20) lossTag(w *World, r *Req) string {
 	}
 	wire := w.Net.WireFor("B", "A")
 	own := ResponderOutput(wire, r.ID)
+	// the message in which each request's terminal status left the responder
+	term := map[graphsync.RequestID]int{}
+	for mi, wm := range wire {
+		if wm.Err != nil {
+			continue
+		}
+		for _, resp := range wm.Msg.Responses() {
+			if _, ok := term[resp.RequestID()]; !ok && resp.Status().IsTerminal() {
+				term[resp.RequestID()] = mi
+			}
+		}
+	}
 	for _, m := range miss {
 		short := strings.SplitN(m, "@", 2)[0]
 		for _, e := range own.Entries {
-			if shortCid(e.Cid) == short && e.Action == "Present" && !e.HasBlock {
-				return ":present-not-sent-to-this-request"
+			if shortCid(e.Cid) != short || e.Action != graphsync.LinkActionPresent || e.HasBlock {
+				continue
 			}
+			// was a sibling of the same scope that had been sent the block still in progress at the responder?
+			for _, o := range s.reqs {
+				if o == r || s.inKey[o.ID] != s.inKey[r.ID] {
+					continue
+				}
+				for _, x := range ResponderOutput(wire, o.ID).Entries {
+					if x.Cid == e.Cid && x.Action == graphsync.LinkActionPresent && x.Msg <= e.Msg {
+						if t, done := term[o.ID]; !done || t >= e.Msg {
+							return ":present-not-sent-to-this-request"
+						}
+					}
+				}
+			}
+			// nobody was: the responder withheld a block no request in progress accounts for
+			return ":withheld-with-no-holder-in-progress"
 		}
 	}
 	return ""
